@@ -62,6 +62,10 @@ U20 = dict(type="x-unreg", id=U20ID, created=T1, modified=T1, name="u20")
 # two versions of a REGISTERED custom object inside one millisecond (2.1 keeps the digits)
 R3US = dict(type="x-verif-obj", spec_version="2.1", id=RID, created=T1, modified="2020-01-02T00:00:00.000400Z", prop="r3us")
 R4US = dict(type="x-verif-obj", spec_version="2.1", id=RID, created=T1, modified="2020-01-02T00:00:00.000800Z", prop="r4us")
+# versions exactly one hour apart inside the hour a daylight-saving zone repeats (Europe: 2021-10-31 00:30Z / 01:30Z are both "02:30" local), and non-ASCII content
+DST1 = camp("dst1 caf\u00e9", "2021-10-31T00:30:00.000Z")
+DST2 = camp("dst2 \u6f22", "2021-10-31T01:30:00.000Z")
+DST3 = camp("dst3", "2021-03-28T01:30:00.000Z")
 IDS = [A, SCO["id"], OLD20["id"], MD["id"], XID, RID, T5ID, I1ID, "campaign--" + U + "9", CU["id"], UPID, NCID, OLD20X["id"], U20ID]
 TYPES = ["campaign", "ipv4-addr", "marking-definition", "x-unreg", "x-verif-obj", "tool", "identity", "malware", "course-of-action"]
 
@@ -122,6 +126,7 @@ def EVENTS():
         "list-of-bundle-dict": (lambda: [bundle_dict(V2, C1)], [V2, C1]),
         "old20x-dict": (lambda: copy.deepcopy(OLD20X), [OLD20X]), "u20-dict": (lambda: copy.deepcopy(U20), [U20]),
         "reg3us-dict": (lambda: copy.deepcopy(R3US), [R3US]), "reg4us-obj": (lambda: O(R4US), [R4US]),
+        "dst1-obj": (lambda: O(DST1), [DST1]), "dst2-dict": (lambda: copy.deepcopy(DST2), [DST2]), "dst3-obj": (lambda: O(DST3), [DST3]),
         "tool5a": (lambda: O(TOOL5A), [TOOL5A]), "tool5b-dict": (lambda: copy.deepcopy(TOOL5B), [TOOL5B]), "ident1": (lambda: O(IDENT1), [IDENT1]),
     }
 
@@ -320,11 +325,24 @@ def compare(sname, obs, model, part, case, conflicted):
 
 
 def run_history(case, part):
+    if case.get("tz"):
+        # ENVIRONMENT: the same history under another process time zone (the stores' answers and file names do not depend on it)
+        env.reset()
+        try:
+            with env.process_tz(case["tz"]):
+                return _run_history(dict(case, tz_active=True), part)
+        finally:
+            env.reset()
+    return _run_history(case, part)
+
+
+def _run_history(case, part):
     import stix2
     from stix2 import FileSystemStore, MemoryStore
     from stix2.datastore import DataSourceError
     register_custom()
-    env.reset()
+    if not case.get("tz_active"):
+        env.reset()
     ev = EVENTS()
     hist = case["history"]
     d = env.scratch_dir("c11")
@@ -446,6 +464,26 @@ def run_history(case, part):
                 feat = "+".join(sorted({feature_of(i) for i, _ in mm.keys()})) or "empty"
                 part.violation("C11/save-load-raises/%s/%s" % (type(e).__name__, feat if len(feat) < 60 else "mixed"), "save_to_file/load_from_file raises", case, "round trip",
                                "%s: %s" % (type(e).__name__, str(e)[:200]))
+            # ... and with the `encoding` argument of both calls (a legacy 8-bit code page, a 16-bit encoding): what comes back is what was saved
+            for encn in (("latin-1", "utf-16", "cp1252") if case.get("encodings") else ()):
+                path2 = os.path.join(d, "export", "saved-%s.json" % encn)
+                part.transitions += 2
+                try:
+                    try:
+                        mem.save_to_file(path2, encoding=encn)
+                    except UnicodeEncodeError:
+                        part.outcome("save-load-encoding:content-not-encodable")
+                        continue
+                    m3 = MemoryStore()
+                    m3.load_from_file(path2, encoding=encn)
+                    l3 = observe(m3, part, "loaded")
+                    if l3["all"] != mobs["all"] or l3["get"] != mobs["get"]:
+                        part.violation("C11/save-load/encoding/%s" % encn, "a memory store saved and re-loaded with the same `encoding` argument answers differently", dict(case, encoding=encn), mobs["get"], l3["get"])
+                    else:
+                        part.outcome("save-load-encoding:same")
+                except Exception as e:
+                    part.violation("C11/save-load-raises/%s/encoding=%s" % (type(e).__name__, encn), "save_to_file / load_from_file with the same `encoding` argument raises", dict(case, encoding=encn), "round trip",
+                                   "%s: %s" % (type(e).__name__, str(e)[:200]))
     finally:
         shutil.rmtree(d, ignore_errors=True)
 
@@ -481,6 +519,11 @@ def run(run):
     run.bound = {"history_length": depth, "events": names, "ids": len(IDS), "bundlify_histories": 64}
     run.assumptions += ["list model in mc/checks/c11_stores.py (multiset of added atoms; distinct versions = distinct (id, instant))",
                         "scratch directories under /dev/shm, removed after each history"]
+    for zone in env.process_tz.ZONES[1:]:
+        for h in (["dst1-obj", "dst2-dict"], ["dst2-dict", "dst1-obj", "dst3-obj"], ["v1-obj", "v2-dict-6digits", "c1"]):
+            cases.append({"history": h, "tz": zone, "saveload": True})
+    for h in (["dst1-obj"], ["dst1-obj", "dst2-dict"], ["v1-obj", "c1"]):
+        cases.append({"history": h, "saveload": True, "encodings": True})
     run.pmap(run_history, cases)
     run.part.sample({"history": ["v3-obj", "v1-dict", "v2-dict-6digits"], "expect": "get(campaign) = v3; all_versions = {v1, v2, v3} on both stores"})
     run.part.sample({"history": ["v2-obj", "v2-dict-6digits"], "expect": "duplicate version: memory idempotent, filesystem refuses loudly; one version held"})
